@@ -24,8 +24,8 @@ use rpki::uri;
 use serde::{Deserialize, Serialize};
 
 use crate::c02::{
-    content_strategy, eval_strategy, flip_in, flip_strategy, lib_time, opts_strategy, ymd, Content, Eval, Flip, Opts,
-    SIG_F12,
+    content_strategy, digest_fault_strategy, eval_strategy, flip_in, flip_strategy, lib_time, opts_strategy,
+    resign_with_digest_fault, swap_content, ymd, Content, DigestFault, Eval, Flip, Opts, SIG_F12,
 };
 use crate::der::{self, oids, Cms, CrlSpec, Ext, IdCertSpec, Tm};
 use crate::engine::*;
@@ -36,15 +36,19 @@ pub const RULE: &str = "created: SignedMessage::create with contents 0..4 KiB, v
 UTCTime/GeneralizedTime switch), every issuer / one-off key pair; validate_at at -1s/edge/+1s/mid/far under the right \
 key and under each other pool key; every message also verified by the harness' own verifier (digest, DER SET OF \
 signature via aws-lc-rs, sid, EE and CRL signatures, serial not listed); single bit flips in content / signed \
-attributes / signature / EE TBS / CRL TBS. foreign: der.rs-built v3 EE certificate (AKI present/absent, basic \
-constraints absent/false/true, 0..2 unknown extensions), CRL (AKI, number, 0..50 revoked entries, EE serial listed or \
-not, this/next update around the evaluation time), 0..4 extra signed attributes (binary signing time, random OIDs with \
-0..200-byte values; attribute set 107..~900 bytes, DER order), all algorithm-identifier variants, and at most one \
-violated condition out of: digest, signature key, signed bytes, sid, EE issuer key, CRL issuer key, EE window, CRL \
-window, EE is CA, EE revoked, other peer key, bit flips; oracle = accept iff none. protocol: ProvisioningCms / \
-PublicationCms create->to_bytes->decode->validate_at(now+d) for d inside/outside the +-5 min window and wrong keys; \
-independently wrapped protocol XML decodes to the same message. non-trivial = extra attributes, or non-empty CRL, or \
-any violated condition / tamper.";
+attributes / signature / EE TBS / CRL TBS, or the message re-wrapped by der.rs with a message-digest attribute of the \
+wrong length (first 0/1/16/31 octets of the digest; digest + 1..8 octets; empty with swapped content) signed again by the \
+one-off EE key. foreign: der.rs-built v3 EE certificate (AKI present/absent, basic constraints absent/false/true, 0..2 \
+unknown extensions), CRL (AKI present/absent, number, 0..50 revoked entries in ascending / descending order or as EE \
+serial +-k so that a listed EE serial follows larger ones, EE serial listed or not, this/next update around the evaluation \
+time, stale / future both with and without AKI), 0..4 extra signed attributes (binary signing time, random OIDs with \
+0..200-byte values; attribute set 107..~900 bytes, DER order; 10 % forced to exactly 126..129 and 20 % to exactly 254..258 \
+octets, exactly 256 in about 3.7 %), all algorithm-identifier variants, and at most one violated condition out of: digest \
+(wrong value; wrong length with matching prefix, also with swapped content), signature key, signed bytes, sid, EE issuer \
+key, CRL issuer key, EE window, CRL window, EE is CA, EE revoked, other peer key, bit flips; oracle = accept iff none. \
+protocol: ProvisioningCms / PublicationCms create->to_bytes->decode->validate_at(now+d) for d inside/outside the +-5 min \
+window and wrong keys; independently wrapped protocol XML (same foreign generator) decodes to the same message. \
+non-trivial = extra attributes, or non-empty CRL, or any violated condition / tamper.";
 
 fn key_info(idx: usize) -> PublicKey {
     keys::pool().infos[idx % POOL_SIZE].clone()
@@ -162,6 +166,11 @@ pub struct Created {
     /// 0: validate under the issuer key; k: under pool key issuer + k
     pub key_off: u8,
     pub tamper: ByteTamper,
+    /// the created message re-wrapped by der.rs with a message-digest
+    /// attribute of the wrong length, signed again by the one-off EE key
+    /// (only together with `ByteTamper::None`)
+    #[serde(default)]
+    pub digest: Option<DigestFault>,
 }
 
 fn distinct_keys(issuer: u8, ee: u8) -> (u8, u8) {
@@ -182,11 +191,15 @@ fn created_strategy(_: Tier) -> BoxedStrategy<Created> {
         window_strategy(),
         eval_strategy(),
         prop_oneof![3 => Just(0u8), 1 => 1u8..8],
-        byte_tamper_strategy(10),
+        // 10 parts untouched, 5 parts one bit flip each, 2 parts digest length
+        prop_oneof![
+            15 => byte_tamper_strategy(10).prop_map(|t| (t, None)),
+            2 => digest_fault_strategy().prop_map(|d| (ByteTamper::None, Some(d))),
+        ],
     )
-        .prop_map(|(content, issuer, ee, rng, (nb, na), eval, key_off, tamper)| {
+        .prop_map(|(content, issuer, ee, rng, (nb, na), eval, key_off, (tamper, digest))| {
             let (issuer, ee_key) = distinct_keys(issuer, ee);
-            Created { content, issuer, ee_key, rng, nb, na, eval, key_off, tamper }
+            Created { content, issuer, ee_key, rng, nb, na, eval, key_off, tamper, digest }
         })
         .boxed()
 }
@@ -218,22 +231,30 @@ fn run_created(c: &Created, obs: &mut Obs) -> CheckResult {
     ensure_eq!(cert.not_after, expected_time_string(c.na), "EE notAfter");
 
     c.tamper.apply(&mut bytes)?;
+    let digest = if c.tamper == ByteTamper::None { c.digest } else { None };
+    if let Some(f) = digest {
+        bytes = resign_with_digest_fault(&bytes, f)?;
+        ensure!(own_validate(&bytes, issuer).is_err(), "harness verifier does not notice {:?}", f);
+    }
     let t = c.eval.time(c.nb, c.na);
     let in_window = c.nb <= t && t <= c.na;
-    let expect = c.tamper == ByteTamper::None && in_window && c.key_off % POOL_SIZE as u8 == 0;
+    let expect = c.tamper == ByteTamper::None && digest.is_none() && in_window && c.key_off % POOL_SIZE as u8 == 0;
     let vkey = key_info(issuer + c.key_off as usize);
     let got: Result<(), String> = match SignedMessage::decode(bytes.as_slice(), false) {
         Err(e) => Err(format!("decode: {}", e)),
         Ok(m) => m.validate_at(&vkey, lib_time(t)).map_err(|e| e.to_string()),
     };
-    obs.label(c.tamper.label());
+    obs.label(match digest {
+        Some(f) => f.label(),
+        None => c.tamper.label(),
+    });
     obs.label(if expect { "expect-accept" } else { "expect-reject" });
     obs.label_if(!in_window, "out-of-window");
     obs.label_if(c.key_off % POOL_SIZE as u8 != 0, "other-key");
     obs.label_if(matches!(c.eval, Eval::Nb | Eval::Na | Eval::NbMinus1 | Eval::NaPlus1 | Eval::NbPlus1 | Eval::NaMinus1), "edge-time");
-    obs.nontrivial_if(c.tamper != ByteTamper::None || !in_window || c.key_off % POOL_SIZE as u8 != 0);
+    obs.nontrivial_if(c.tamper != ByteTamper::None || digest.is_some() || !in_window || c.key_off % POOL_SIZE as u8 != 0);
     verdict("created", expect, &got, attrs_len, &|| {
-        format!("tamper={:?} eval={:?} t={} window=[{}, {}] key_off={}", c.tamper, c.eval, t, c.nb, c.na, c.key_off)
+        format!("tamper={:?} digest={:?} eval={:?} t={} window=[{}, {}] key_off={}", c.tamper, digest, c.eval, t, c.nb, c.na, c.key_off)
     })
 }
 
@@ -283,6 +304,10 @@ pub enum Fault {
     /// validated under another peer key
     OtherPeerKey,
     Bytes(ByteTamper),
+    /// message-digest attribute of the wrong length (prefix of the real
+    /// digest / real digest plus extra octets; attributes signed by the EE
+    /// key), for `EmptySwap` with the content replaced after signing
+    DigestLen(DigestFault),
 }
 
 impl Fault {
@@ -298,6 +323,9 @@ impl Fault {
             Fault::CrlWrongSigner => "fault:crl-wrong-signer",
             Fault::OtherPeerKey => "fault:other-peer-key",
             Fault::Bytes(b) => b.label(),
+            Fault::DigestLen(DigestFault::Short(_)) => "fault:digest-short",
+            Fault::DigestLen(DigestFault::Long(_)) => "fault:digest-long",
+            Fault::DigestLen(DigestFault::EmptySwap) => "fault:digest-empty-swap",
         }
     }
 }
@@ -386,6 +414,12 @@ pub struct Foreign {
     pub revoked_others: u8,
     pub revoked_has_ee: bool,
     pub revoked_pos: u16,
+    /// how the other revoked serials relate to the EE certificate's (RFC 5280
+    /// prescribes no order of the list): 0 = unrelated four-octet serials in
+    /// ascending order, 1 = the same descending, 2 = EE serial + 1, + 2, ..
+    /// (all larger than the EE's), 3 = alternately larger and smaller
+    #[serde(default)]
+    pub revoked_mode: u8,
     pub extra_attrs: Vec<ExtraAttr>,
     pub alg_null: bool,
     pub opts: Opts,
@@ -420,6 +454,65 @@ fn extra_attr_strategy() -> BoxedStrategy<ExtraAttr> {
     .boxed()
 }
 
+/// The extra signed attributes as written: identical attribute types would
+/// make the SET OF ambiguous, so only the first attribute of a type is kept.
+fn encode_extra_attrs(attrs: &[ExtraAttr]) -> Vec<Vec<u8>> {
+    let mut v: Vec<Vec<u8>> = Vec::new();
+    let mut seen_bst = false;
+    for a in attrs {
+        if matches!(a, ExtraAttr::BinarySigningTime(_)) {
+            if seen_bst {
+                continue;
+            }
+            seen_bst = true;
+        }
+        let e = a.encode();
+        let oid_of = |x: &Vec<u8>| der::parse_exact(x).ok().and_then(|n| n.get(&[0]).and_then(|o| o.prim_bytes().map(|b| b.to_vec())));
+        if !v.iter().any(|x| oid_of(x) == oid_of(&e)) {
+            v.push(e);
+        }
+    }
+    v
+}
+
+/// Size of the signed-attribute set of a foreign message (content type
+/// id-ct-xml, 32-octet digest, signing time `st`, the given extras).
+fn foreign_attrs_len(extra: &[ExtraAttr], opts: Opts) -> usize {
+    let mut attrs = vec![
+        der::attr_content_type(oids::CT_PROTOCOL),
+        der::attr_message_digest(&[0u8; 32]),
+        der::attr_signing_time(opts.st()),
+    ];
+    attrs.extend(encode_extra_attrs(extra));
+    der::attrs_content_len(&attrs)
+}
+
+/// Brings the attribute set to exactly `target` octets by appending the
+/// attribute 1.3.6.1.4.1.99999 (not among the random ones) with a value of
+/// the fitting length: first behind the first of the given attributes, then,
+/// if that is already too large or a length field jumps over the target, on
+/// its own. Leaves the attributes alone if neither works.
+fn size_extra_attrs(extra: &mut Vec<ExtraAttr>, opts: Opts, target: usize) {
+    for keep in [1usize, 0] {
+        let mut probe: Vec<ExtraAttr> = extra.iter().take(keep).cloned().collect();
+        probe.push(ExtraAttr::Random { arcs: vec![6, 1, 4, 1, 99_999], len: 0, fill: 0x11 });
+        let base = foreign_attrs_len(&probe, opts);
+        if base > target {
+            continue;
+        }
+        // a value of L octets adds L plus at most three octets of longer length forms
+        for l in (target - base).saturating_sub(3)..=(target - base) {
+            if let Some(ExtraAttr::Random { len, .. }) = probe.last_mut() {
+                *len = l as u16;
+            }
+            if foreign_attrs_len(&probe, opts) == target {
+                *extra = probe;
+                return;
+            }
+        }
+    }
+}
+
 fn fault_strategy() -> BoxedStrategy<Fault> {
     prop_oneof![
         7 => Just(Fault::None),
@@ -436,6 +529,7 @@ fn fault_strategy() -> BoxedStrategy<Fault> {
         1 => flip_strategy().prop_map(|f| Fault::Bytes(ByteTamper::ContentFlip(f))),
         1 => flip_strategy().prop_map(|f| Fault::Bytes(ByteTamper::CertTbsFlip(f))),
         1 => flip_strategy().prop_map(|f| Fault::Bytes(ByteTamper::CrlTbsFlip(f))),
+        3 => digest_fault_strategy().prop_map(Fault::DigestLen),
     ]
     .boxed()
 }
@@ -454,8 +548,8 @@ fn foreign_strategy(_: Tier) -> BoxedStrategy<Foreign> {
         prop::option::weighted(0.6, any::<u64>()),
         prop::collection::vec(ext_spec_strategy(), 0..2),
         prop_oneof![4 => Just(0u8), 3 => 1u8..6, 2 => 6u8..=50],
-        prop::bool::weighted(0.1),
-        any::<u16>(),
+        prop::bool::weighted(0.12),
+        (any::<u16>(), 0u8..4),
     );
     (
         content_strategy(),
@@ -463,14 +557,23 @@ fn foreign_strategy(_: Tier) -> BoxedStrategy<Foreign> {
         times,
         ee,
         crl,
-        prop_oneof![3 => Just(Vec::new()), 7 => prop::collection::vec(extra_attr_strategy(), 1..=4)],
+        (
+            prop_oneof![3 => Just(Vec::new()), 3 => prop::collection::vec(extra_attr_strategy(), 1..=1),
+                4 => prop::collection::vec(extra_attr_strategy(), 2..=4)],
+            // exact sizes of the attribute set around the points where its
+            // DER length changes form (one / two / three length octets)
+            prop_oneof![14 => Just(None), 2 => (126usize..=129).prop_map(Some), 4 => (254usize..=258).prop_map(Some)],
+        ),
         any::<bool>(),
         opts_strategy(),
         fault_strategy(),
     )
         .prop_map(
             |(content, (issuer, ee_key, mut serial), (when, ee_win, crl_win), (ee_aki, ee_bc, ee_exts, ee_key_usage),
-              (crl_aki, crl_number, crl_exts, revoked_others, revoked_has_ee, revoked_pos), extra_attrs, alg_null, opts, fault)| {
+              (crl_aki, crl_number, crl_exts, revoked_others, revoked_has_ee, (revoked_pos, revoked_mode)), (mut extra_attrs, size), alg_null, opts, fault)| {
+                if let Some(target) = size {
+                    size_extra_attrs(&mut extra_attrs, opts, target);
+                }
                 let (issuer, ee_key) = distinct_keys(issuer, ee_key);
                 serial[0] &= 0x7f;
                 // a CRL without any extension would have an empty extension
@@ -478,11 +581,65 @@ fn foreign_strategy(_: Tier) -> BoxedStrategy<Foreign> {
                 let crl_number = if !crl_aki && crl_number.is_none() && crl_exts.is_empty() { Some(1) } else { crl_number };
                 Foreign {
                     content, issuer, ee_key, serial, when, ee_win, crl_win, ee_aki, ee_bc, ee_exts, ee_key_usage, crl_aki, crl_number,
-                    crl_exts, revoked_others, revoked_has_ee, revoked_pos, extra_attrs, alg_null, opts, fault,
+                    crl_exts, revoked_others, revoked_has_ee, revoked_pos, revoked_mode, extra_attrs, alg_null, opts, fault,
                 }
             },
         )
         .boxed()
+}
+
+/// `serial` + `k` (k != 0) as a serial number (big-endian, at most 20 octets,
+/// top bit clear), `None` if the result is not one.
+fn serial_offset(serial: &[u8], k: i32) -> Option<Vec<u8>> {
+    let mut v = vec![0u8; 21usize.saturating_sub(serial.len())];
+    v.extend_from_slice(serial);
+    let mut carry = k as i64;
+    for b in v.iter_mut().rev() {
+        let x = *b as i64 + carry;
+        *b = x.rem_euclid(256) as u8;
+        carry = x.div_euclid(256);
+    }
+    if carry != 0 || v[0] != 0 || v[1] & 0x80 != 0 || v.iter().all(|&b| b == 0) {
+        return None;
+    }
+    let skip = v.iter().take_while(|&&b| b == 0).count();
+    Some(v[skip..].to_vec())
+}
+
+/// The revoked serials in list order and whether the EE's entry (if any)
+/// comes after an entry with a larger serial.
+fn revoked_serials(c: &Foreign) -> (Vec<Vec<u8>>, bool) {
+    let norm = |s: &[u8]| -> Vec<u8> { s.iter().copied().skip_while(|&b| b == 0).collect() };
+    let mut revoked: Vec<Vec<u8>> = Vec::new();
+    for i in 0..c.revoked_others as u32 {
+        let mut s = (1_000_003u32.wrapping_mul(i + 1) ^ c.revoked_pos as u32).to_be_bytes().to_vec();
+        s[0] &= 0x7f;
+        if norm(&s) == norm(&c.serial) {
+            s.push(1);
+        }
+        let k = (i / 2 + 1) as i32;
+        let related = match c.revoked_mode {
+            2 => serial_offset(&c.serial, i as i32 + 1),
+            3 => serial_offset(&c.serial, if i % 2 == 0 { k } else { -k }),
+            _ => None,
+        };
+        revoked.push(related.unwrap_or(s));
+    }
+    if c.revoked_mode == 1 {
+        revoked.reverse();
+    }
+    let mut after_larger = false;
+    if c.revoked_has_ee {
+        let pos = pick_idx(c.revoked_pos, revoked.len() + 1);
+        let ee = norm(&c.serial);
+        after_larger = revoked[..pos].iter().any(|s| {
+            let s = norm(s);
+            (s.len(), &s) > (ee.len(), &ee)
+        });
+        // same number, possibly written with a different count of leading zeros by the caller
+        revoked.insert(pos, c.serial.clone());
+    }
+    (revoked, after_larger)
 }
 
 /// Builds the foreign message; returns (bytes, attribute set size).
@@ -509,21 +666,12 @@ fn build_foreign(c: &Foreign, ctype: &[u8], content: &[u8]) -> Result<(Vec<u8>, 
 
     // revoked list: `revoked_others` serials different from the EE's, the
     // EE serial inserted at `revoked_pos` if requested
-    let norm = |s: &[u8]| -> Vec<u8> { s.iter().copied().skip_while(|&b| b == 0).collect() };
-    let mut revoked: Vec<(Vec<u8>, Tm)> = Vec::new();
-    for i in 0..c.revoked_others as u32 {
-        let mut s = (1_000_003u32.wrapping_mul(i + 1) ^ c.revoked_pos as u32).to_be_bytes().to_vec();
-        s[0] &= 0x7f;
-        if norm(&s) == norm(&c.serial) {
-            s.push(1);
-        }
-        revoked.push((s, Tm::from_unix(crl_this - 86_400 * (i as i64 % 400))));
-    }
-    if c.revoked_has_ee {
-        let pos = pick_idx(c.revoked_pos, revoked.len() + 1);
-        // same number, possibly written with a different count of leading zeros by the caller
-        revoked.insert(pos, (c.serial.clone(), Tm::from_unix(crl_this)));
-    }
+    let revoked: Vec<(Vec<u8>, Tm)> = revoked_serials(c)
+        .0
+        .into_iter()
+        .enumerate()
+        .map(|(i, s)| (s, Tm::from_unix(crl_this - 86_400 * (i as i64 % 400))))
+        .collect();
     let crl_spec = CrlSpec {
         issuer_cn: format!("issuer-{}", issuer),
         this_update: Tm::from_unix(crl_this),
@@ -537,27 +685,8 @@ fn build_foreign(c: &Foreign, ctype: &[u8], content: &[u8]) -> Result<(Vec<u8>, 
     let crl_signer = if c.fault == Fault::CrlWrongSigner { issuer + 2 } else { issuer };
     let crl = der::x509_sign(&crl_spec.tbs(), crl_signer, c.alg_null);
 
-    let extra: Vec<Vec<u8>> = {
-        // identical attributes would make the SET OF ambiguous: keep distinct encodings
-        let mut v: Vec<Vec<u8>> = Vec::new();
-        let mut seen_bst = false;
-        for a in &c.extra_attrs {
-            if matches!(a, ExtraAttr::BinarySigningTime(_)) {
-                if seen_bst {
-                    continue;
-                }
-                seen_bst = true;
-            }
-            let e = a.encode();
-            let oid_of = |x: &Vec<u8>| der::parse_exact(x).ok().and_then(|n| n.get(&[0]).and_then(|o| o.prim_bytes().map(|b| b.to_vec())));
-            if !v.iter().any(|x| oid_of(x) == oid_of(&e)) {
-                v.push(e);
-            }
-        }
-        v
-    };
+    let extra = encode_extra_attrs(&c.extra_attrs);
     let mut cms = Cms::standard(ctype, content, cert, vec![crl], ee_key, c.opts.st(), &extra, c.opts.cms());
-    let attrs_len = der::attrs_content_len(&cms.attrs);
     match c.fault {
         Fault::Digest => {
             let mut other = content.to_vec();
@@ -565,13 +694,12 @@ fn build_foreign(c: &Foreign, ctype: &[u8], content: &[u8]) -> Result<(Vec<u8>, 
             cms.attrs[1] = der::attr_message_digest(&keys::sha256(&other));
             cms.signature = keys::raw_sign(ee_key, &der::attrs_to_be_signed(&cms.attrs));
         }
-        Fault::ContentAfter => {
-            if let Some(b) = cms.content.first_mut() {
-                *b ^= 0x01;
-            } else {
-                cms.content.push(0);
-            }
+        Fault::DigestLen(f) => {
+            cms.attrs[1] = der::attr_message_digest(&f.value(&keys::sha256(content)));
+            cms.signature = keys::raw_sign(ee_key, &der::attrs_to_be_signed(&cms.attrs));
+            f.swap_content(&mut cms.content);
         }
+        Fault::ContentAfter => swap_content(&mut cms.content),
         Fault::SigWrongKey => {
             cms.signature = keys::raw_sign(ee_key + 1, &der::attrs_to_be_signed(&cms.attrs));
         }
@@ -583,6 +711,7 @@ fn build_foreign(c: &Foreign, ctype: &[u8], content: &[u8]) -> Result<(Vec<u8>, 
         Fault::Sid => cms.sid = key_id(ee_key + 1),
         _ => {}
     }
+    let attrs_len = der::attrs_content_len(&cms.attrs);
     let mut bytes = cms.encode();
     if let Fault::Bytes(b) = c.fault {
         b.apply(&mut bytes)?;
@@ -603,6 +732,9 @@ fn label_foreign(c: &Foreign, attrs_len: usize, expect: bool, obs: &mut Obs) {
     obs.label(if expect { "expect-accept" } else { "expect-reject" });
     obs.label_if(attrs_len >= 128, "attrs>=128");
     obs.label_if(attrs_len >= 256, "attrs>=256");
+    obs.label_if((126..=129).contains(&attrs_len), "attrs-126..129");
+    obs.label_if((254..=258).contains(&attrs_len), "attrs-254..258");
+    obs.label_if(attrs_len == 256, "attrs=256");
     obs.label_if(!c.ee_win.contains_when(), "ee-not-current");
     obs.label_if(!c.crl_win.contains_when(), "crl-not-current");
     obs.label_if(matches!(c.ee_win, Win::Around(0, _) | Win::Around(_, 0)), "ee-edge");
@@ -610,6 +742,10 @@ fn label_foreign(c: &Foreign, attrs_len: usize, expect: bool, obs: &mut Obs) {
     obs.label_if(c.ee_bc == Some(true), "ee-is-ca");
     obs.label_if(c.ee_bc == Some(false), "ee-bc-false");
     obs.label_if(c.revoked_has_ee, "ee-revoked");
+    obs.label_if(c.revoked_has_ee && revoked_serials(c).1, "ee-revoked-after-larger-serial");
+    obs.label_if(c.revoked_has_ee && c.revoked_others > 0 && !revoked_serials(c).1, "ee-revoked-no-larger-before");
+    obs.label_if(!c.crl_win.contains_when() && !c.crl_aki, "crl-not-current-no-aki");
+    obs.label_if(!c.crl_win.contains_when() && c.crl_aki, "crl-not-current-with-aki");
     obs.label_if(c.revoked_others > 0 && !c.revoked_has_ee, "crl-nonempty-ee-not-listed");
     obs.label_if(!c.ee_aki, "ee-no-aki");
     obs.label_if(!c.crl_aki, "crl-no-aki");
@@ -782,7 +918,7 @@ fn run_proto(c: &Proto, obs: &mut Obs) -> CheckResult {
         let (bytes, attrs_len) = build_foreign(f, oids::CT_PROTOCOL, xml.as_ref())?;
         let expect = foreign_expectation(f);
         let vkey = key_info(if f.fault == Fault::OtherPeerKey { issuer + 1 } else { issuer });
-        let intact = !matches!(f.fault, Fault::ContentAfter | Fault::Bytes(_));
+        let intact = !matches!(f.fault, Fault::ContentAfter | Fault::Bytes(_) | Fault::DigestLen(DigestFault::EmptySwap));
         let got: Result<(), String> = match &msg {
             AnyMsg::Prov(m) => match ProvisioningCms::decode(&bytes) {
                 Err(e) => Err(format!("decode: {}", e)),
@@ -856,21 +992,30 @@ fn run_proto(c: &Proto, obs: &mut Obs) -> CheckResult {
 
 const FOREIGN_FLOORS: &[(&str, f64)] = &[
     ("attrs>=128", 0.3),
-    ("attrs>=256", 0.08),
-    ("expect-accept", 0.08),
-    ("fault:digest", 0.025),
-    ("fault:content-after", 0.025),
-    ("fault:sig-wrong-key", 0.025),
-    ("fault:sig-other-bytes", 0.025),
-    ("fault:sid", 0.025),
-    ("fault:ee-wrong-signer", 0.025),
-    ("fault:crl-wrong-signer", 0.025),
-    ("fault:other-peer-key", 0.025),
-    ("tamper:sig-flip", 0.025),
-    ("tamper:attrs-flip", 0.025),
-    ("tamper:content-flip", 0.025),
-    ("tamper:cert-tbs-flip", 0.025),
-    ("tamper:crl-tbs-flip", 0.025),
+    ("attrs>=256", 0.12),
+    ("attrs-126..129", 0.04),
+    ("attrs-254..258", 0.08),
+    ("attrs=256", 0.015),
+    ("expect-accept", 0.07),
+    ("fault:digest", 0.02),
+    ("fault:digest-short", 0.025),
+    ("fault:digest-long", 0.02),
+    ("fault:digest-empty-swap", 0.012),
+    ("fault:content-after", 0.02),
+    ("fault:sig-wrong-key", 0.02),
+    ("fault:sig-other-bytes", 0.02),
+    ("fault:sid", 0.02),
+    ("fault:ee-wrong-signer", 0.02),
+    ("fault:crl-wrong-signer", 0.02),
+    ("fault:other-peer-key", 0.02),
+    ("tamper:sig-flip", 0.02),
+    ("tamper:attrs-flip", 0.02),
+    ("tamper:content-flip", 0.02),
+    ("tamper:cert-tbs-flip", 0.02),
+    ("tamper:crl-tbs-flip", 0.02),
+    ("ee-revoked-after-larger-serial", 0.012),
+    ("crl-not-current-no-aki", 0.04),
+    ("crl-not-current-with-aki", 0.04),
     ("ee-not-current", 0.08),
     ("crl-not-current", 0.08),
     ("ee-edge", 0.15),
@@ -908,6 +1053,9 @@ pub fn property() -> Property {
                     ("tamper:content-flip", 0.03),
                     ("tamper:cert-tbs-flip", 0.03),
                     ("tamper:crl-tbs-flip", 0.03),
+                    ("tamper:digest-short", 0.025),
+                    ("tamper:digest-long", 0.02),
+                    ("tamper:digest-empty-swap", 0.01),
                 ],
             }
             .boxed(),
@@ -923,7 +1071,7 @@ pub fn property() -> Property {
                     ("provisioning:foreign", 0.08),
                     ("publication:created", 0.15),
                     ("publication:foreign", 0.15),
-                    ("expect-accept", 0.15),
+                    ("expect-accept", 0.12),
                 ],
             }
             .boxed(),
